@@ -16,8 +16,8 @@ def run(tier, seed):
         ck.notes['driver'] = 'unavailable: model-side runs skipped, searching with the implementation-side oracles only'
     import soupsieve as sv
     n = 350 if tier == 'quick' else 12000
-    ag = gen_selectors.AGen(rnd, names=['div', 'p', 'x-y', 'é', 'a1', 'LI'], classes=['x', 'a-b', 'é', '1st', '-'],
-                            ids=['a', 'i d', '-x', 'ü', '9'], attrs=['title', 'data-x', 'type', 'xlink:href', 'A'],
+    ag = gen_selectors.AGen(rnd, names=['div', 'p', 'x-y', 'é', 'a1', 'LI'], classes=['x', 'a-b', 'é', '1st', '-', 'end ', '\xa0', 'z\x85'],
+                            ids=['a', 'i d', '-x', 'ü', '9', 'main ', ' lead', 'nb\xa0', '\u3000x', 'tab\t', 'e\u2003'], attrs=['title', 'data-x', 'type', 'xlink:href', 'A'],
                             values=['x', 'a b', "it's", 'q"q', '', 'é', 'line\nbreak', '-', 'a-b', '1', ' ', 'tab\there', 'back\\slash', '\U0001F600',
                                     'say "hi"', "it's'", 'x"', "'", '"', 'end\\'],
                             texts=['hello', 'a"b', "c'd", ' ', 'x,y', '(z)', 'hi"', "q'", '"', 'b\\'], feats=('core', 'contains', 'lang'))
